@@ -1,9 +1,226 @@
 /-
-  C08 — property theorems only (helper lemmas live in Lemmas*.lean).
--/
-import NdnVerif.C08.Spec
-namespace Ndn.C08
+  C08 — property theorems only (helper lemmas: LemmasPit*.lean, LemmasDrain.lean, LemmasFib.lean and
+  the tree lemmas of NdnVerif/C07).  All statements are about the models of Model.lean / ModelFib.lean
+  for EVERY history: any list of `Op` (Interests, Data, capacity changes, passages of time with any
+  resolution `tie` of simultaneous timers and any fuel) from `init cfg cap`, any FIB configuration
+  `cfg`, any capacity; any list of FIB / RIB operations.
 
-theorem init_pit_empty (cfg : Cfg) (k : Nat) : (init cfg k).pit = [] := rfl
+  Assumptions: A-hash (tables keyed by names instead of 64-bit hashes; dead nonce list keyed by
+  (name, nonce)), A-tok (PIT tokens are distinct: the code draws random tokens until unused; the
+  model numbers entries).
+-/
+import NdnVerif.C08.LemmasDrain
+import NdnVerif.C08.LemmasFib
+namespace Ndn.C08
+open Ndn.C07 (Minimal OnPath prefixes)
+
+/-- every reachable state satisfies the structural invariant and the timing invariant -/
+theorem reachable_inv (cfg : Cfg) (cap : Nat) (ops : List Op) :
+    Inv8 (run (init cfg cap) ops) ∧ InvT (run (init cfg cap) ops) :=
+  run_inv (inv8_init cfg cap) (invT_init cfg cap) ops
+
+/-- **pit_entry_scheduled.** In every reachable state every PIT entry has an item in the expiry queue
+    (`sched = some p`) — so it will be reaped — and its time `p` is no later than the latest end of
+    lifetime among the Interests recorded in it (`horizon`, which also bounds the expiration of every
+    in- and out-record) or the current instant.  This includes entries created for Interests that
+    were answered from the Content Store. -/
+theorem pit_entry_scheduled (cfg : Cfg) (cap : Nat) (ops : List Op) :
+    let s := run (init cfg cap) ops
+    (∀ e ∈ s.pit, ∃ p, e.sched = some p ∧ p ≤ max e.horizon s.now) ∧
+    (∀ e ∈ s.pit, ∀ r ∈ e.ins ++ e.outs, r.exp ≤ e.horizon) ∧
+    allScheduled (dumpOf s) = true := by
+  intro s
+  have h := (reachable_inv cfg cap ops).1
+  refine ⟨h.sched, h.recs, ?_⟩
+  simp only [allScheduled, dumpOf, List.all_eq_true]
+  intro e he
+  obtain ⟨p, hp, _⟩ := h.sched e he
+  simp [hp]
+
+example : (run (init { nexthops := [(3, 10)] } 4)
+    [Op.data ⟨3, [⟨8, [97]⟩], 0, none, [1]⟩, Op.interest id ⟨1, [⟨8, [97]⟩], false, false, 7, 1000⟩]).pit.map (·.sched)
+    = [some 0] := by decide
+
+/-- **pit_removed_by.** Whenever the forwarder is at rest (every armed timer lies in the future, as
+    after each `advanceTo` that had enough fuel), no PIT entry is still present one update period
+    after its scheduled time; one `Update` removes every entry whose time has come, and two
+    consecutive updates are at most one period apart.  With `pit_entry_scheduled`: an entry is gone
+    at most `period` (100 ms) after the latest lifetime recorded in it, and at most `period` after it
+    was satisfied (satisfaction schedules it for "now"). -/
+theorem pit_removed_by (cfg : Cfg) (cap : Nat) (ops : List Op) :
+    let s := run (init cfg cap) ops
+    (s.now < s.pitNext → notOverdue (dumpOf s) = true) ∧
+    (s.pitNext ≤ s.dnlNext → (∀ x ∈ (fireUpdate s).pit, isDue s.pitNext x = false) ∧
+      (fireUpdate s).pitNext ≤ s.pitNext + period) := by
+  intro s
+  obtain ⟨h, hT⟩ := reachable_inv cfg cap ops
+  constructor
+  · intro hrest
+    simp only [notOverdue, dumpOf, List.all_eq_true]
+    intro e he
+    cases hs : e.sched with
+    | none => rfl
+    | some p =>
+      have hb : s.pitNext ≤ p + period := hT.behind e he p hs
+      exact decide_eq_true (by show s.now < p + period; omega)
+  · intro hord
+    obtain ⟨_, _, _, r4, _, r6⟩ := fireUpdate_spec h hord
+    exact ⟨fun x hx => ((r6 x).mp hx).2, r4⟩
+
+theorem advanceTo_pit_sub (tie : Nat → Bool) (f : Nat) {s : St} (hi : Inv8 s) (target : Nat) :
+    ∀ x ∈ (advanceTo tie f s target).pit, x ∈ s.pit := by
+  induction f generalizing s with
+  | zero => intro x hx; exact hx
+  | succ f ih =>
+    unfold advanceTo
+    split
+    · rename_i h
+      obtain ⟨r1, _, _, _, _, r6⟩ := fireUpdate_spec hi (by omega)
+      intro x hx; exact ((r6 x).mp (ih r1 x hx)).1
+    · rename_i h
+      split
+      · rename_i h2
+        have hord : s.dnlNext ≤ s.pitNext := by
+          by_cases hp : s.pitNext ≤ target
+          · cases htie : tie s.pitNext <;> simp [hp, htie] at h <;> omega
+          · omega
+        obtain ⟨r1, _, _, _, r5⟩ := fireDnl_spec hi hord
+        intro x hx; have := ih r1 x hx; rw [r5] at this; exact this
+      · split
+        · rename_i h3
+          obtain ⟨r1, _, _, _, _, r6⟩ := fireUpdate_spec hi (by omega)
+          intro x hx; exact ((r6 x).mp (ih r1 x hx)).1
+        · intro x hx; exact hx
+
+/-- **quiescent_drain.** From any reachable state, let time pass without traffic until `target`, at
+    least one update period after every scheduled expiry (`m` bounds them; by `pit_entry_scheduled`
+    `m` can be taken as the latest lifetime recorded, or now).  If the timers were really run until
+    then (`target < pitNext` afterwards, i.e. the fuel sufficed) the PIT is empty, its reported size
+    and the token map are 0, the reported CS size is the true size, and the name tree is exactly the
+    prefix closure of the names that still hold a cache entry: no dead branch from expiry or
+    eviction. -/
+theorem quiescent_drain (cfg : Cfg) (cap : Nat) (ops : List Op) (tie : Nat → Bool) (fuel m target : Nat) :
+    let s := run (init cfg cap) ops
+    let s' := advanceTo tie fuel s target
+    (∀ e ∈ s.pit, ∀ p, e.sched = some p → p ≤ m) → s.now ≤ target → m + period ≤ target → target < s'.pitNext →
+    s'.pit = [] ∧ s'.nPit = 0 ∧ (dumpOf s').tokMap = 0 ∧ (dumpOf s').qLen = 0 ∧
+    s'.cs.nCs = s'.cs.cs.length ∧ s'.cs.queue.length = s'.cs.cs.length ∧
+    Minimal s'.cs.nodes s'.cs.cs.keys := by
+  intro s s' hm hnow hq hrun
+  obtain ⟨h, hT⟩ := reachable_inv cfg cap ops
+  have h' : Inv8 s' := advanceTo_inv tie fuel h target hnow
+  have hT' : InvT s' := advanceTo_invT tie fuel h hT target hnow
+  have hempty : s'.pit = [] := by
+    apply List.eq_nil_iff_forall_not_mem.mpr
+    intro x hx
+    have hxs : x ∈ s.pit := advanceTo_pit_sub tie fuel h target x hx
+    obtain ⟨p, hp, _⟩ := h'.sched x hx
+    have h1 := hT'.behind x hx p hp
+    have h2 := hm x hxs p hp
+    omega
+  have hmin := h'.minimal
+  rw [hempty] at hmin
+  refine ⟨hempty, by rw [h'.npit, hempty]; rfl, by simp [dumpOf, hempty], by simp [dumpOf, hempty],
+    h'.cs.ncs, h'.cs.qlen, ?_⟩
+  simpa using hmin
+
+example :
+    let s := run (init { nexthops := [(3, 10)] } 4) [Op.interest id ⟨1, [⟨8, [97]⟩], false, false, 7, 1000000⟩]
+    (advanceTo (fun _ => true) 50 s 200000000).pit = [] ∧ s.pit.length = 1 := by decide
+
+/-- **tree minimality** (every reachable state, not only at quiescence): the node set of the PIT-CS
+    name tree is exactly the set of non-empty prefixes of the names holding a cache entry or a PIT
+    entry; the reported sizes are the true sizes; PIT tokens are distinct. -/
+theorem tree_minimal (cfg : Cfg) (cap : Nat) (ops : List Op) :
+    let s := run (init cfg cap) ops
+    Minimal s.cs.nodes (s.cs.cs.keys ++ s.pit.map (·.name)) ∧
+    s.nPit = s.pit.length ∧ s.cs.nCs = s.cs.cs.length ∧ s.cs.queue.length = s.cs.cs.length ∧
+    (s.pit.map (·.tok)).Nodup := by
+  intro s
+  have h := (reachable_inv cfg cap ops).1
+  exact ⟨h.minimal, h.npit, h.cs.ncs, h.cs.qlen, h.toks⟩
+
+/-- the executable predicate used by the driver agrees with `Minimal` -/
+theorem sameSet_closure_iff (nodes L : List Name) : sameSet nodes (closure L) = true ↔ Minimal nodes L := by
+  simp only [sameSet, subset, Bool.and_eq_true, List.all_eq_true, C07.memb_iff, closure, List.mem_flatMap, Minimal, OnPath]
+  constructor
+  · rintro ⟨h1, h2⟩ x
+    exact ⟨h1 x, fun ⟨m, hm, hp⟩ => h2 x ⟨m, hm, hp⟩⟩
+  · intro h
+    exact ⟨fun x hx => (h x).mp hx, fun x hx => (h x).mpr hx⟩
+
+theorem tree_minimal_spec (cfg : Cfg) (cap : Nat) (ops : List Op) :
+    treeMinimal (dumpOf (run (init cfg cap) ops)) = true ∧ sizesTrue (dumpOf (run (init cfg cap) ops)) = true := by
+  obtain ⟨h1, h2, h3, h4, _⟩ := tree_minimal cfg cap ops
+  constructor
+  · exact (sameSet_closure_iff _ _).mpr h1
+  · simp [sizesTrue, dumpOf, h2, h3, h4, C07.CsMap.keys]
+
+/-- **dnl_drains** (partial: the bound "expiry ≤ insertion time + lifetime" of the records is part of
+    the model's `dnlInsert`, not re-proved as an invariant here).  Once every dead-nonce record is
+    past its expiry at the next tick, each tick of the reaper removes `dnlBatch` = 100 records (all of
+    them if fewer), never adds one, and the premise persists: the list is empty after
+    ⌈length/100⌉ ticks. -/
+theorem dnl_drains_partial (s : St) (h : ∀ x ∈ s.dnl, x.exp < s.dnlNext) :
+    (fireDnl s).dnl.length = s.dnl.length - dnlBatch ∧ (∀ x ∈ (fireDnl s).dnl, x.exp < (fireDnl s).dnlNext) := by
+  have hall : ∀ (l : List Dn), (∀ x ∈ l, x.exp < s.dnlNext) →
+      l.takeWhile (fun x => decide (x.exp < s.dnlNext)) = l := by
+    intro l
+    induction l with
+    | nil => intro _; rfl
+    | cons a t ih =>
+      intro hl
+      have ha := hl a (by simp)
+      simp only [List.takeWhile_cons, ha, decide_true, ↓reduceIte]
+      rw [ih (fun x hx => hl x (by simp [hx]))]
+  have hall := hall s.dnl h
+  unfold fireDnl
+  simp only [hall, List.length_drop]
+  constructor
+  · omega
+  · intro x hx
+    have := h x (List.mem_of_mem_drop hx)
+    show x.exp < s.dnlNext + period
+    omega
+
+/-- `n` consecutive ticks of the dead-nonce reaper -/
+def ticks : Nat → St → St
+  | 0, s => s
+  | n + 1, s => ticks n (fireDnl s)
+
+theorem dnl_drains (s : St) (h : ∀ x ∈ s.dnl, x.exp < s.dnlNext) (n : Nat) :
+    (ticks n s).dnl.length = s.dnl.length - dnlBatch * n := by
+  induction n generalizing s with
+  | zero => simp [ticks]
+  | succ n ih =>
+    obtain ⟨h1, h2⟩ := dnl_drains_partial s h
+    simp only [ticks]
+    rw [ih (fireDnl s) h2, h1]
+    simp only [Nat.mul_succ]; omega
+
+example : (ticks 1 { dnl := [⟨[], 1, 5⟩, ⟨[], 2, 7⟩], dnlNext := 10 }).dnl = [] := by decide
+
+/-- **fib_tree_minimal.** After every history of InsertNextHop / RemoveNextHop / ClearNextHops /
+    SetStrategy / UnSetStrategy the name-tree FIB holds exactly the nodes on paths to prefixes with a
+    next hop or a strategy. -/
+theorem fib_tree_minimal (ops : List FibOp) :
+    let f := ({} : FibTree).run ops
+    Minimal f.nodes f.liveList ∧ ∀ m, m ∈ f.liveList ↔ f.live m = true := by
+  intro f
+  exact ⟨FibTree.run_inv FibTree.init_inv ops, fun m => FibTree.mem_liveList⟩
+
+example : (({} : FibTree).run [FibOp.ins [⟨8, [97]⟩, ⟨8, [98]⟩, ⟨8, [99]⟩] 1, FibOp.rem [⟨8, [97]⟩, ⟨8, [98]⟩, ⟨8, [99]⟩] 1]).nodes = [] := by
+  decide
+
+/-- **rib_minimal.** After every history of AddRoute / RemoveRoute / CleanUpFace the RIB tree holds
+    exactly the nodes on paths to names with at least one route. -/
+theorem rib_minimal (ops : List RibOp) :
+    let r := ({} : Rib).run ops
+    Minimal r.nodes r.liveList ∧ ∀ m, m ∈ r.liveList ↔ r.live m = true := by
+  intro r
+  exact ⟨Rib.run_inv Rib.init_inv ops, fun m => Rib.mem_liveList⟩
+
+example : (({} : Rib).run [RibOp.add [⟨8, [97]⟩, ⟨8, [98]⟩] 1 0, RibOp.add [⟨8, [97]⟩] 2 0, RibOp.cleanUp 1]).nodes = [[⟨8, [97]⟩]] := by
+  decide
 
 end Ndn.C08
